@@ -322,6 +322,7 @@ package types
 //@ func ValidatorSet.IncrementProposerPriority
 //@   relies wf: wfSet(vals) && wfPowers(vals) && wfCached(vals) && prioBounded(vals)
 //@   assigns vals.Proposer, all(Validator.ProposerPriority), vals.totalVotingPower
+//@   ensures positive: times > 0
 //@   ensures member: times > 0 ==> exists(k, 0, len(vals.Validators), vals.Proposer == vals.Validators[k])
 //@   atcall ValidatorSet.RescalePriorities window: arg1 == 2 * totalPower(vals, len(vals.Validators))
 //@   loop 1 invariant count: 0 <= i && i <= times
